@@ -554,6 +554,7 @@ NAMED_FILTERS = {
     "F3": {"Op": "and", "Nodes": [{"Op": "", "Key": "region", "Cmp": "eq", "Val": "eu"},
                                   {"Op": "not", "Nodes": [{"Op": "", "Key": "tier", "Cmp": "eq", "Val": "free"}]}]},
     "F4": {"Op": "", "Key": "region", "Cmp": "ex"},
+    "F5": {"Op": "", "Key": "region", "Cmp": "bogus", "Val": "x"},   # rejected by filter.Validate
 }
 
 
